@@ -57,7 +57,7 @@ def check(pid, tier, args):
     run.cov["pixel_events"], run.cov["structural_events"] = npix, nstruct
     run.cov["exhaustive"] = False
     run.cov["bounds"] = {"pixel_contents": "all 2^16 NRGBA (channel, alpha) pairs, all valid RGBA pairs, YCbCr R over all (Y,Cr) and "
-                                           "B over all (Y,Cb), CMYK (C,K) pairs, 16-bit sweeps; stride %d" % (13 if tier == "quick" else 1),
+                                           "B over all (Y,Cb), CMYK (C,K) pairs, 16-bit sweeps; stride %d" % (5 if tier == "quick" else 1),
                          "structure": "18 source types x 7 rectangles (negative/positive origins, empty, 1xN, Nx1) x plain/sub-image x 3 helpers x parallelism {1,2,3,7,16,rows+5}"}
     run.sample(json.loads(lines[10]))
     run.sample(json.loads(lines[-1]))
